@@ -11,10 +11,11 @@ import (
 )
 
 type Clause struct {
-	Tags []string
-	Text string
-	E    Expr
-	Line int
+	Tags  []string
+	Text  string
+	E     Expr
+	Line  int
+	Bound bool
 }
 
 type LoopSpec struct {
@@ -77,7 +78,7 @@ type PkgContracts struct {
 
 var clauseKeywords = map[string]bool{
 	"mode": true, "requires": true, "ensures": true, "assigns": true, "loop": true, "inline": true,
-	"trusted": true, "lemma": true, "panics_iff": true, "ghost": true, "split": true, "opt": true,
+	"trusted": true, "lemma": true, "panics_iff": true, "ghost": true, "split": true, "opt": true, "bound": true,
 }
 
 var tagRe = regexp.MustCompile(`^\[([^\]]*)\]\s*`)
@@ -261,7 +262,7 @@ func ParseContractFile(path string) (*PkgContracts, error) {
 					} else if len(fs) == 1 {
 						fc.Opts[fs[0]] = "1"
 					}
-				case "requires", "ensures", "panics_iff", "split":
+				case "requires", "ensures", "panics_iff", "split", "bound":
 					group := ""
 					if s.kw == "split" {
 						if m := regexp.MustCompile(`^([A-Za-z0-9_]+):\s+`).FindStringSubmatch(s.text); m != nil {
@@ -277,6 +278,11 @@ func ParseContractFile(path string) (*PkgContracts, error) {
 					case "requires":
 						fc.Requires = append(fc.Requires, c)
 					case "ensures":
+						fc.Ensures = append(fc.Ensures, c)
+					case "bound":
+						// a range bound on a result (e.g. len(result) <= 5): proved like an ensures clause, and used at
+						// call sites as a typing fact of the fresh result
+						c.Bound = true
 						fc.Ensures = append(fc.Ensures, c)
 					case "panics_iff":
 						fc.PanicsIff = c
